@@ -80,7 +80,7 @@ impl<'a> G<'a> {
             2 => "get1()".to_owned(),
             3 => {
                 self.tag("luau-number");
-                (*self.rng.pick(&["0b101", "1_000", "0xF_F", "0B11", "1e1_0", "0b1_0"])).to_owned()
+                (*self.rng.pick(&["0b101", "1_000", "0xF_F", "0B11", "1e1_0", "0b1_0", "100_", "2_", "0xF_", "0x_F", "1_000_", "0b1_"])).to_owned()
             }
             4 | 5 => {
                 self.tag("floor-division");
@@ -802,7 +802,7 @@ impl<'a> G<'a> {
     }
 
     fn types_and_attributes(&mut self, d: usize) {
-        match self.rng.below(14) {
+        match self.rng.below(16) {
             0 => {
                 self.tag("type-annotated-local");
                 let x = self.fresh("ta");
@@ -867,6 +867,18 @@ impl<'a> G<'a> {
                 self.tag("type-function");
                 let f = self.fresh("tf");
                 self.push(format!("type function {}(a) return a end", f));
+            }
+            14 | 15 => {
+                // generic ANONYMOUS function expressions (table field, call argument, nested): remove_types must drop
+                // the generics of function expressions too, with and without tokens
+                self.tag("type-generic-function-expression");
+                let g = self.fresh("gx");
+                let a = self.num(d);
+                match self.rng.below(3) {
+                    0 => self.push(format!("local {g} = {{ f = function<T>(v: T): T return v end }} emit({g}.f({a}))", g = g, a = a)),
+                    1 => self.push(format!("emit(id(function<T...>(...: T...): ...any return ... end)({a}, 2))", a = a)),
+                    _ => self.push(format!("emit((function<A, B>(x: A, y: B) return (function<C>(z: C): C return z end)(x), y end)({a}, 1))", a = a)),
+                }
             }
             11 | 12 => {
                 // a BARE cast of a call that returns two values, in the positions where a second value
